@@ -474,6 +474,10 @@ def schedule_run(
     window_at: Any = None,
     lock_seconds: float = 60.0,
     window_after_inject: bool = False,
+    inject2: Callable[[World], None] | None = None,
+    hold_at: Any = None,
+    hold_idx: Any = None,
+    hold_for: Any = None,
 ) -> bool:
     """One worker; at choice point i the message delivered next is the choices[i]-th of the
     currently deliverable ones (at most ``fanout`` candidates), left un-acked if noack[i]; an
@@ -495,12 +499,15 @@ def schedule_run(
                 cp = 0  # symbolic choices used so far
                 cp_seen = 0  # choice points met so far (steps with more than one deliverable message)
                 w0: int | None = None
+                held: list[Any] = [None]
+                held_until = [10 ** 9]
+                hold_seen = [0]
                 while step < MAX_STEPS:
                     for sym, tag in ((inject_at, 1), (inject2_at, 2)):
                         if sym is not None and inject is not None and tag not in [t for t, _ in injected_tags(injected)]:
                             if hx.decide_eq(sym, step):
                                 injected.append(tag * 100000 + step)
-                                inject(w)
+                                (inject2 if (tag == 2 and inject2 is not None) else inject)(w)
                     if not w.make_visible():
                         break
                     now = stubs.CLOCK.peek_ms()
@@ -513,14 +520,28 @@ def schedule_run(
                     if not vis:
                         break
                     vis.sort(key=lambda r: (r["deliver_at"], r["id"]))
+                    # "late message": at choice point hold_at the hold_idx-th deliverable message is held back
+                    # and delivered only when nothing else is deliverable (a slow consumer / delayed redelivery)
+                    all_injected = len(injected) >= (1 if inject_at is not None else 0) + (1 if inject2_at is not None else 0)
+                    if hold_at is not None and held[0] is None and len(vis) > 1 and (not window_after_inject or all_injected):
+                        if hx.decide_eq(hold_at, hold_seen[0]):
+                            held[0] = vis[hx.pick(hold_idx, min(len(vis), fanout))]["id"]
+                            # released after hold_for further deliveries (1..8), or when nothing else is deliverable
+                            held_until[0] = step + (1 + hx.pick(hold_for, 8) if hold_for is not None else 10 ** 9)
+                        hold_seen[0] += 1
+                    if held[0] is not None and len(vis) > 1 and step < held_until[0]:
+                        vis = [r for r in vis if r["id"] != held[0]] or vis
+                    elif held[0] is not None and step >= held_until[0] and any(r["id"] == held[0] for r in vis):
+                        vis = [r for r in vis if r["id"] == held[0]]
+                        held_until[0] = -1
                     idx = 0
                     if len(vis) > 1:
                         if window_at is not None and w0 is None:
                             # the window of symbolic choices starts at the choice point the solver picks
                             if hx.decide_eq(window_at, cp_seen):
                                 w0 = cp_seen
-                        if window_after_inject and not injected:
-                            pass  # natural order until the injection happened, then the symbolic choices start
+                        if window_after_inject and not all_injected:
+                            pass  # natural order until the injection(s) happened, then the symbolic choices start
                         elif (window_at is None or w0 is not None) and cp < len(choices):
                             idx = hx.pick(choices[cp], min(len(vis), fanout))
                             cp += 1
@@ -536,12 +557,12 @@ def schedule_run(
                 w.processor._check_dlq()
                 snap = w.snapshot()
                 summ = summarize(snap)
-                nontrivial = any(i != 0 for i, _, _, _ in trace) or any(not a for _, _, _, a in trace) or bool(injected)
+                nontrivial = any(i != 0 for i, _, _, _ in trace) or any(not a for _, _, _, a in trace) or bool(injected) or held[0] is not None
                 sample = {"workload": workload, "choices": [(i, n) for i, n, _, _ in trace if n > 1][: len(choices)],
-                          "noack": [not a for _, _, _, a in trace[: len(noack or [])]], "injected_at": [x % 100000 for x in injected], "window_at": w0,
+                          "noack": [not a for _, _, _, a in trace[: len(noack or [])]], "injected_at": [x % 100000 for x in injected], "window_at": w0, "held_message_row": held[0],
                           "steps": step, "final": summ["workflow"]}
                 if nontrivial:
-                    P.reached(json.dumps([(i, n, a) for i, n, _, a in trace if n > 1 or not a]) + str(injected), sample)
+                    P.reached(json.dumps([(i, n, a) for i, n, _, a in trace if n > 1 or not a]) + str(injected) + str(held[0]), sample)
                 else:
                     P.reached("fifo", sample)
                 for m in monitors:
@@ -1269,3 +1290,12 @@ def event_fault_run(workload: str, step_sym: Any, kind_sym: Any) -> bool:
             finally:
                 txmod.AtomicTransaction.mark_message_processed = orig_mark  # type: ignore[method-assign]
                 w.close()
+
+
+# ----------------------------------------------------------------------------------------------- pause / resume
+def inject_pause(w: World) -> None:
+    w.store.pause(w.workflow_id, "vf")
+
+
+def inject_unpause(w: World) -> None:
+    w.orchestrator.unpause(w.store.retrieve(w.workflow_id))
